@@ -658,6 +658,92 @@ def t_unpack_split(tree):
     return _UnpackSplit().visit(tree)
 
 
+class _TernaryToIf(ast.NodeTransformer):
+    """`x = a if c else b` -> if c: x = a / else: x = b"""
+
+    def _rewrite(self, stmts):
+        out = []
+        for st in stmts:
+            if isinstance(st, ast.Assign) and len(st.targets) == 1 \
+                    and isinstance(st.targets[0], ast.Name) \
+                    and isinstance(st.value, ast.IfExp):
+                v = st.value
+                a = ast.Assign(targets=[ast.Name(id=st.targets[0].id,
+                                                 ctx=ast.Store())],
+                               value=v.body)
+                b = ast.Assign(targets=[ast.Name(id=st.targets[0].id,
+                                                 ctx=ast.Store())],
+                               value=v.orelse)
+                new = ast.If(test=v.test, body=[a], orelse=[b])
+                for nd in (a, b, new):
+                    ast.copy_location(nd, st)
+                out.append(new)
+            else:
+                out.append(st)
+        return out
+
+    def generic_visit(self, node):
+        node = super().generic_visit(node)
+        for field in ('body', 'orelse', 'finalbody'):
+            v = getattr(node, field, None)
+            if isinstance(v, list) and v and isinstance(v[0], ast.stmt):
+                setattr(node, field, self._rewrite(v))
+        return node
+
+
+def t_ternary_to_if(tree):
+    return _TernaryToIf().visit(tree)
+
+
+class _DictToStores(ast.NodeTransformer):
+    """`d = {'a': x, 'b': y}` (constant string keys, at statement level)
+    -> `d = dict(); d['a'] = x; d['b'] = y` when the values do not mention
+    d"""
+
+    def _rewrite(self, stmts):
+        out = []
+        for st in stmts:
+            ok = (isinstance(st, ast.Assign) and len(st.targets) == 1
+                  and isinstance(st.targets[0], ast.Name)
+                  and isinstance(st.value, ast.Dict) and st.value.keys
+                  and all(isinstance(k, ast.Constant) and isinstance(
+                      k.value, str) for k in st.value.keys))
+            if ok:
+                name = st.targets[0].id
+                if any(isinstance(x, ast.Name) and x.id == name
+                       for v in st.value.values for x in ast.walk(v)):
+                    ok = False
+            if not ok:
+                out.append(st)
+                continue
+            init = ast.Assign(
+                targets=[ast.Name(id=name, ctx=ast.Store())],
+                value=ast.Call(func=ast.Name(id='dict', ctx=ast.Load()),
+                               args=[], keywords=[]))
+            ast.copy_location(init, st)
+            out.append(init)
+            for k, v in zip(st.value.keys, st.value.values):
+                a = ast.Assign(
+                    targets=[ast.Subscript(
+                        value=ast.Name(id=name, ctx=ast.Load()),
+                        slice=k, ctx=ast.Store())], value=v)
+                ast.copy_location(a, st)
+                out.append(a)
+        return out
+
+    def generic_visit(self, node):
+        node = super().generic_visit(node)
+        for field in ('body', 'orelse', 'finalbody'):
+            v = getattr(node, field, None)
+            if isinstance(v, list) and v and isinstance(v[0], ast.stmt):
+                setattr(node, field, self._rewrite(v))
+        return node
+
+
+def t_dict_to_stores(tree):
+    return _DictToStores().visit(tree)
+
+
 def t_opaque_locals(tree):
     return t_rename_locals(tree, suffix=None)
 
@@ -681,6 +767,8 @@ TRANSFORMS = {
     'split-and': t_split_and,
     'with-merge': t_with_merge,
     'unpack-split': t_unpack_split,
+    'ternary-to-if': t_ternary_to_if,
+    'dict-to-stores': t_dict_to_stores,
 }
 
 
